@@ -732,11 +732,18 @@ impl<'a> Parser<'a> {
             let mut rhs = match op {
                 // The index is a complete expression, delimited by the closing bracket
                 Token::LeftSquareParentheses => self.parse_expression_internal()?,
+                Token::Keyword(Keyword::In) | Token::Keyword(Keyword::NotIn) => {
+                    if self.current() != &Token::LeftParentheses {
+                        return Err(ParserError::new(op_location, ParserErrorType::ExpectedTuple));
+                    }
+
+                    self.parse_primary_expression()?
+                }
                 _ => self.parse_unary_operator()?
             };
 
             match op {
-                Token::LeftSquareParentheses => {}
+                Token::LeftSquareParentheses | Token::Keyword(Keyword::In) | Token::Keyword(Keyword::NotIn) => {}
                 _ => {
                     if token_precedence < self.get_token_precedence()? {
                         rhs = self.parse_binary_operator_rhs(token_precedence + 1, rhs)?;
@@ -783,7 +790,8 @@ impl<'a> Parser<'a> {
                         ParserExpressionTreeData::Tuple { values } => {
                             values
                         }
-                        _ => { return Err(ParserError::new(op_location, ParserErrorType::ExpectedTuple)); }
+                        // A parenthesised list of one element
+                        tree => vec![ParserExpressionTree::new(rhs.location, tree)]
                     };
 
                     lhs = ParserExpressionTree::new(
@@ -796,7 +804,8 @@ impl<'a> Parser<'a> {
                         ParserExpressionTreeData::Tuple { values } => {
                             values
                         }
-                        _ => { return Err(ParserError::new(op_location, ParserErrorType::ExpectedTuple)); }
+                        // A parenthesised list of one element
+                        tree => vec![ParserExpressionTree::new(rhs.location, tree)]
                     };
 
                     lhs = ParserExpressionTree::new(
